@@ -239,13 +239,23 @@ where
     pub async fn sleep(&mut self, warm_start_if_possible: bool) -> Result<(), RadioError> {
         if self.radio_mode != RadioMode::Sleep {
             self.radio_kind.ensure_ready(self.radio_mode).await?;
-            self.radio_kind
-                .set_sleep(warm_start_if_possible, &mut self.delay)
-                .await?;
+            // Record the sleep before commanding it: if this future is dropped once the
+            // command is out (set_sleep still waits afterwards), the chip is asleep and has
+            // to be woken before anything else. Waking a chip that is still awake is harmless.
+            let previous_mode = self.radio_mode;
+            self.radio_mode = RadioMode::Sleep;
             if !warm_start_if_possible {
                 self.cold_start = true;
             }
-            self.radio_mode = RadioMode::Sleep;
+            if let Err(err) = self
+                .radio_kind
+                .set_sleep(warm_start_if_possible, &mut self.delay)
+                .await
+            {
+                // nothing was sent to the chip
+                self.radio_mode = previous_mode;
+                return Err(err);
+            }
         }
         Ok(())
     }
